@@ -28,7 +28,7 @@ import math
 import random
 from email.utils import format_datetime
 
-from redress import AsyncRetry, Classification, ErrorClass, Retry
+from redress import RateLimitError, AsyncRetry, Classification, ErrorClass, Retry
 from redress import strategies as S
 from redress.extras.http import http_retry_after_classifier
 
@@ -66,6 +66,14 @@ GARBAGE = ["soon", "later", "n/a", "--", "abc", "x y z", "tomorrow", "!", "never
 
 class HttpError(Exception):
     pass
+
+
+class HttpRateLimited(HttpError, RateLimitError):
+    """an SDK's typed 'rate limited' error: carries Retry-After data but no numeric status"""
+
+
+def is_429(att):
+    return att["status"] in (429, "rle")
 
 
 class Getter:
@@ -161,7 +169,7 @@ def gen(seed, tier="quick"):
     n = r.randint(1, 5)
     atts = []
     for _ in range(n):
-        atts.append({"value": gen_value(r), "shape": r.choice(SHAPES), "status": r.choice([429, 429, 429, 429, 503, 500]),
+        atts.append({"value": gen_value(r), "shape": r.choice(SHAPES), "status": r.choice([429, 429, 429, 429, 503, 500, "rle"]),
                      "dur": r.choice([0, 1000, 1_000_000, r.randrange(0, 3_000_000)]),
                      "wall_jump": r.choice([0, 0, 1_000_000, -1_000_000, 3_600_000_000, -86_400_000_000, r.randrange(-10**9, 10**9)])})
     return {"kind": "http", "seed": seed, "mode": r.choice(["sync", "async"]), "attempts": atts, "max_attempts": n + r.choice([0, 1]),
@@ -170,7 +178,8 @@ def gen(seed, tier="quick"):
             "draws": r.choice(["zero", "top", "seeded", "mixed"]),
             "clock": {"base_us": r.choice([0, 10**9]), "skew_us": r.choice([1_700_000_000_000_000, 1_700_000_000_000_000 + r.randrange(0, 10**12), 946_684_800_000_000])},
             # a per-attempt timeout that never fires (sync: real worker thread, async: wait_for on the SimLoop)
-            "attempt_timeout_us": r.choice([None, None, None, None, 20_000_000, 3_600_000_000])}
+            "attempt_timeout_us": r.choice([None, None, None, None, 20_000_000, 3_600_000_000]),
+            "reuse_exc": r.random() < 0.15}
 
 
 def build_exc(att, wall_us):
@@ -212,8 +221,11 @@ def build_exc(att, wall_us):
     else:
         header = None
         direct = decode_nonstr(v["v"])
-    e = HttpError("http")
-    e.status = att["status"]
+    if att["status"] == "rle":
+        e = HttpRateLimited("http")
+    else:
+        e = HttpError("http")
+        e.status = att["status"]
     shape = att["shape"]
     if shape in HOSTILE_SHAPES and t != "num_attr":
         if shape == "hostile_getter":
@@ -230,10 +242,10 @@ def build_exc(att, wall_us):
             e.headers = {"Retry-After": HostileStr()}
         else:
             e.response = HostileResponse()
-        return e, ({"kind": "free"} if att["status"] == 429 else {"kind": "not_rate_limit"})
+        return e, ({"kind": "free"} if is_429(att) else {"kind": "not_rate_limit"})
     if t == "num_attr":
         e.retry_after = direct
-        if att["status"] == 429:
+        if is_429(att):
             exp = {"kind": "num", "v": direct}
         return e, exp
     if shape == "attr_str":
@@ -264,7 +276,7 @@ def build_exc(att, wall_us):
     else:  # headers_and_attr: a non-parsable attribute must fall through to the header
         e.retry_after = "n/a"
         e.headers = {"Retry-After": header}
-    if att["status"] != 429:
+    if not is_429(att):
         exp = {"kind": "not_rate_limit"}
     elif header is None and t in ("nonstr",):
         exp = {"kind": "none"}
@@ -307,10 +319,18 @@ def execute(scn):
     def make_rec(att):
         exc, exp = build_exc(att, clock.mono_us + clock.skew_us)
         recs.append({"att": state["k"], "exp": exp, "value": att["value"], "shape": att["shape"], "status": att["status"]})
+        prev = state.get("exc")
+        if scn.get("reuse_exc") and prev is not None and type(prev) is type(exc):
+            # the client re-raises one cached error object whose Retry-After data it refreshes in place
+            prev.__dict__.clear()
+            prev.__dict__.update(exc.__dict__)
+            exc = prev
+        state["exc"] = exc
         return exc
 
     def sleeper_rec(s):
         recs[-1]["sleep"] = s
+        recs[-1]["sleep_at_us"] = clock.mono_us - state["t0"]
 
     fb = scn["fallback_us"] / 1e6
     strat = S.retry_after_or(lambda ctx: fb, jitter_s=scn["jitter_us"] / 1e6)
@@ -363,6 +383,21 @@ def execute(scn):
             viol.append(V("R1", f"classifier raised {rec['raised']}", {"value": rec["value"], "shape": rec["shape"]}))
             continue
         if "hint" not in rec:
+            # the policy never showed this failure to the classifier; if it nevertheless backed off, the wait is still
+            # held to the hint the failure carried (known independently for plain integers / numeric attributes)
+            h0 = None
+            if exp["kind"] == "int":
+                h0 = max(0.0, float(exp["n"]))
+            elif exp["kind"] == "num" and isinstance(exp["v"], (int, float)) and not isinstance(exp["v"], bool):
+                try:
+                    h0 = max(0.0, float(exp["v"]))
+                except OverflowError:
+                    h0 = None
+            if "sleep" in rec and "elapsed_us" not in rec and h0 is not None and math.isfinite(h0) and h0 == h0:
+                s = rec["sleep"]
+                if isinstance(s, (int, float)) and s + 1e-3 < min(h0, (D - (rec.get("sleep_at_us", 0))) / 1e6):
+                    viol.append(V("R4", "wait is shorter than the hinted time (the failure was never shown to the classifier)",
+                                  {"hint": h0, "slept": s, "value": rec["value"]}))
             continue
         h = rec["hint"]
         if h is not None:
